@@ -79,8 +79,9 @@ def reduceStates (t : Traj R) (w : R) (u : TSum R) : TSum R :=
 /-- `sum_final_state += weight * final_state`; a missing operand is an exception in the code -/
 def reduceFinal (t : Traj R) (w : R) (u : TSum R) : Option (TSum R) :=
   match u.fs, t.f with
+  | none, _ => some u                     -- no running sum to add to (e.g. after a heterogeneous merge)
   | some a, some f => some { u with fs := some (a + w * f) }
-  | _, _ => none
+  | some _, none => none
 
 def reduceExpect (t : Traj R) (w : R) (u : TSum R) : TSum R :=
   { u with s1 := u.s1 + w * t.x, s2 := u.s2 + w * (t.x * t.x) }
@@ -172,17 +173,23 @@ def firstStates (m : MT R) : List R :=
 def initSt (first : List R) (need : Bool) (u : TSum R) : TSum R :=
   if need then { u with st := first.map (fun _ => 0) } else u
 
-/-- state change of `average_states`: the sums of states are initialised lazily from the stored
-trajectories and *all* stored trajectories are reduced again.  `none`: the property returns None
-without touching anything. -/
+/-- every kept trajectory (sampled and deterministic) comes with its states — after a merge some may not -/
+def allStates (m : MT R) : Bool :=
+  !m.trajs.isEmpty && (m.trajs ++ m.detTrajs).all (fun t => !t.s.isEmpty)
+
+/-- rebuild one sum of states from its trajectories if it is missing -/
+def rebuildSt (first : List R) (need : Bool) (ts : List (Traj R)) (ws : List R) (u : TSum R) : TSum R :=
+  if need then redoStates (initSt first true u) ts ws else u
+
+/-- state change of `average_states`: a sum of states that is missing is initialised lazily and *its*
+trajectories are reduced into it; a sum that is present is left alone.  `none`: the property returns
+None without touching anything. -/
 def statesPrep (m : MT R) : Option (MT R) :=
   let needD := needStates m.sumDet
   let needR := needStates m.sumRel
-  if (needD || needR) && (firstStates m).isEmpty then none
-  else if needD || needR then
-    some (mapSums m (fun u => redoStates (initSt (firstStates m) needD u) m.detTrajs m.detW)
-                    (fun u => redoStates (initSt (firstStates m) needR u) m.trajs m.relW))
-  else some m
+  if (needD || needR) && !(allStates m) then none
+  else some (mapSums m (rebuildSt (firstStates m) needD m.detTrajs m.detW)
+                       (rebuildSt (firstStates m) needR m.trajs m.relW))
 
 def statesVal (m : MT R) : Option (List R) :=
   match m.sumDet, m.sumRel with
@@ -204,9 +211,7 @@ inductive FinalPlan (R : Type)
   | typeError
 
 def availFinal (m : MT R) : Bool :=
-  match m.trajs with
-  | t :: _ => t.f.isSome
-  | [] => false
+  !m.trajs.isEmpty && (m.trajs ++ m.detTrajs).all (fun t => t.f.isSome)
 
 def statesOk (states : Option (List R)) : Bool :=
   match states with | some l => !l.isEmpty | none => false
